@@ -1,8 +1,153 @@
-import Echse.Model.Daemon
+/-
+  C12 — the per-task concurrency limit (`max_simul`, 63 = none) of the daemon model.
+
+  All statements are about arbitrary finite histories (`run`, operations `Op`: loop iteration, client
+  request, child exit, checkpoint, and the combined iteration `tickExit` in which a child is reaped while
+  periodic callbacks are pending) from the initial state; the clock does not run backwards and submitted
+  occurrence lists are ascending (`Mono`).
+  Helper lemmas: Echse/Lemmas/Daemon*.lean.
+-/
+import Echse.Lemmas.Daemon3
 namespace C12
 open Echse.Daemon
 
-/-- smoke (general statements replace this) -/
-theorem smoke_limit : mayRun { sid := 0, uid := "j", owner := 1, occ := [], dur := 0, maxSimul := 1, nsim := 1 } = false := by decide
+/-- every reachable state is well-formed (`Inv`: sids unique and below `nextSid`, at most one in-table task
+per uid, `seq` distinct, the per-task phase invariant `TInv`, live children name existing tasks, `nsim` is
+the number of live children) -/
+theorem reachable_inv (m : Nat) (ops : List Op) (hm : Mono 0 ops) : Inv (run { me := m } ops).1 :=
+  Inv_run ops { me := m } (Inv_init m) hm
+
+/-- 1. in every reachable state `nsim` of every task is the number of its live children -/
+theorem nsim_counts (m : Nat) (ops : List Op) (hm : Mono 0 ops) :
+    ∀ t ∈ (run { me := m } ops).1.tasks, t.nsim = liveCount (run { me := m } ops).1.children t.sid :=
+  (reachable_inv m ops hm).count
+
+/-- 1'. no wrap-around: whenever a live child is reaped its task is there and has `nsim ≥ 1` -/
+theorem exit_no_underflow (m : Nat) (ops : List Op) (hm : Mono 0 ops) (k : Nat) (c : Child)
+    (hc : (run { me := m } ops).1.children[k]? = some c) (hl : c.live = true) :
+    ∃ t ∈ (run { me := m } ops).1.tasks, t.sid = c.sid ∧ 1 ≤ t.nsim := by
+  have h := reachable_inv m ops hm
+  have hcm : c ∈ (run { me := m } ops).1.children := List.mem_of_getElem? hc
+  obtain ⟨t, ht, hs⟩ := h.kids c hcm hl
+  refine ⟨t, ht, hs, ?_⟩
+  rw [h.count t ht, hs]
+  exact liveCount_pos hcm hl
+
+/-- 2a. a loop iteration raises `nsim` of a task only by one and only when the limit test of `task_cb`
+passed for the value `nsim` had when the callback ran (`exitDec`: the child reaped in the same iteration) -/
+theorem nsim_up_only_below_limit {s : St} {now : Nat} {ko : Option Nat} (h : Inv s) {t' : DTask}
+    (ht' : t' ∈ (iter s now ko).1.tasks) :
+    ∃ t ∈ s.tasks, t'.sid = t.sid ∧ t'.maxSimul = t.maxSimul ∧
+      (t'.nsim ≤ t.nsim ∨ (t'.nsim = t.nsim - exitDec (exitSid s ko) t + 1 ∧
+        (t.maxSimul ≥ 63 ∨ t.nsim - exitDec (exitSid s ko) t < t.maxSimul))) := by
+  obtain ⟨t, ht, hit⟩ := (mem_iter_tasks h).mp ht'
+  have hk := iterTask_keeps hit
+  exact ⟨t, ht, hk.1, hk.2.2.2.2.1, iterTask_nsim hit⟩
+
+/-- 2b. the limit proper: if the limit submitted for a uid never changes over the history (`LimOk lim`;
+replacements with the same limit allowed), then in every reachable state `nsim ≤ maxSimul` for every
+limited task -/
+theorem limit (m : Nat) (lim : String → Nat) (ops : List Op) (hm : Mono 0 ops)
+    (hl : ∀ op ∈ ops, LimOk lim op) :
+    ∀ t ∈ (run { me := m } ops).1.tasks, t.maxSimul = lim t.uid ∧ (t.maxSimul < 63 → t.nsim ≤ t.maxSimul) :=
+  LInv_run ops { me := m } (Inv_init m) (by intro t ht; cases ht) hm hl
+
+/-- 2c. without that hypothesis the bound fails: a replacement keeps `nsim` and may lower `maxSimul` -/
+example :
+    Mono 0 [Op.req 1001 [.sched "j" none 2 0 [10, 20, 30, 40] true], .tick 15, .tick 25,
+            .req 1001 [.sched "j" none 1 0 [30, 40] true]] ∧
+    ((run { me := 0 } [Op.req 1001 [.sched "j" none 2 0 [10, 20, 30, 40] true], .tick 15, .tick 25,
+        .req 1001 [.sched "j" none 1 0 [30, 40] true]]).1.tasks.map fun t => (t.nsim, t.maxSimul)) = [(2, 1)] :=
+  ⟨by simp [Mono, instrSorted], by decide⟩
+
+/-- the limit test, spelled out -/
+theorem mayRun_iff (t : DTask) : mayRun t = false ↔ t.maxSimul < 63 ∧ t.maxSimul ≤ t.nsim := by
+  simp only [mayRun, unlimited, Bool.or_eq_false_iff, decide_eq_false_iff_not, ge_iff_le]
+  omega
+
+/-- 3a. `refuse_iff`: every spawn of an iteration belongs to exactly one in-table task, and it is a
+`--no-run` report iff that task is limited and has `nsim ≥ maxSimul` when its callback runs -/
+theorem refuse_iff {s : St} {now : Nat} {ko : Option Nat} (h : Inv s) {sp : Spawn} (hsp : sp ∈ (iter s now ko).2) :
+    ∃ t ∈ s.tasks, t.inTable = true ∧ t.uid = sp.uid ∧
+      (∀ t2 ∈ s.tasks, t2.inTable = true → t2.uid = sp.uid → t2 = t) ∧
+      (sp.nd = true ↔ t.maxSimul < 63 ∧ t.maxSimul ≤ t.nsim - exitDec (exitSid s ko) t) := by
+  obtain ⟨t, htm, hit, _, _, _, _, _, he⟩ := spawn_char h hsp
+  refine ⟨t, htm, hit, by rw [he], ?_, ?_⟩
+  · intro t2 h2 hi2 hu2
+    exact h.uidU t2 h2 t htm hi2 hit (by rw [hu2, he])
+  · rw [he]
+    simp only [Bool.not_eq_eq_eq_not, Bool.not_true]
+    exact mayRun_iff _
+
+/-- 3a for the plain iteration: `nsim` and `maxSimul` are those of the state before the `tick` -/
+theorem refuse_iff_tick {s : St} {now : Nat} (h : Inv s) {sp : Spawn} (hsp : sp ∈ (tick s now).2) :
+    ∃ t ∈ s.tasks, t.inTable = true ∧ t.uid = sp.uid ∧
+      (sp.nd = true ↔ t.maxSimul < 63 ∧ t.maxSimul ≤ t.nsim) := by
+  rw [tick_eq_iter] at hsp
+  obtain ⟨t, htm, hit, hu, _, hnd⟩ := refuse_iff h hsp
+  exact ⟨t, htm, hit, hu, by simpa [exitDec, exitSid] using hnd⟩
+
+/-- 3b. `resume`: after one of `t`'s children has been reaped (with `nsim ≤ maxSimul` before), the next
+spawn of `t` is a real run -/
+theorem resume {s : St} (h : Inv s) {t : DTask} (htm : t ∈ s.tasks) (hit : t.inTable = true)
+    (hle : t.nsim ≤ t.maxSimul) {k : Nat} {c : Child} (hc : s.children[k]? = some c) (hl : c.live = true)
+    (hcs : c.sid = t.sid) {now : Nat} {sp : Spawn} (hsp : sp ∈ (tick (childExit s k).1 now).2)
+    (hu : sp.uid = t.uid) : sp.nd = false := by
+  have h' : Inv (childExit s k).1 := Inv_childExit h k
+  rw [tick_eq_iter] at hsp
+  obtain ⟨t', ht'm, hit', _, _, _, _, _, he⟩ := spawn_char h' hsp
+  obtain ⟨hts, _, _⟩ := exit_spec s k [] h.sidU c hc hl
+  have ht'm' : t' ∈ (childExitPending s k []).1.tasks := ht'm
+  rw [hts, List.mem_filterMap] at ht'm'
+  obtain ⟨x, hx, hex⟩ := ht'm'
+  have hxo : exitO (some c.sid) ([].contains x.sid) x = some t' := hex
+  have hx' := exitO_some hxo
+  have hxt : x = t := by
+    apply h.uidU x hx t htm _ hit
+    · rw [← hu, he]; simp only []; rw [hx']
+    · rw [hx'] at hit'; exact hit'
+  subst hxt
+  have hpos : 1 ≤ x.nsim := by
+    rw [h.count x htm, ← hcs]; exact liveCount_pos (List.mem_of_getElem? hc) hl
+  rw [he]
+  simp only [exitSid, exitDec]
+  rw [hx']
+  simp only [mayRun, unlimited, exitDec, hcs, if_true, Bool.not_eq_eq_eq_not, Bool.not_false,
+    Bool.or_eq_true, decide_eq_true_eq]
+  right
+  simp
+  omega
+
+/-- 4. `independent`: the spawns an iteration makes for the in-table task `t` are a function of `t`'s own
+record, the clock, `spawnFail` and whether a child of `t` is reaped in that iteration — nothing else of the
+state matters (in particular not `nsim`/`maxSimul`/`occ` of other tasks) -/
+theorem independent {s s' : St} {now : Nat} {ko ko' : Option Nat} (h : Inv s) (h' : Inv s') {t : DTask}
+    (ht : t ∈ s.tasks) (ht' : t ∈ s'.tasks) (hit : t.inTable = true) (hf : s.spawnFail = s'.spawnFail)
+    (hex : exitDec (exitSid s ko) t = exitDec (exitSid s' ko') t) :
+    (iter s now ko).2.filter (·.uid == t.uid) = (iter s' now ko').2.filter (·.uid == t.uid) := by
+  rw [iter_spawns_uid now ko h ht hit, iter_spawns_uid now ko' h' ht' hit,
+    iterSpawns_eq (h.tinv' ht) hit, iterSpawns_eq (h'.tinv' ht') hit, hf, hex]
+
+/-- 4 for the plain iteration -/
+theorem independent_tick {s s' : St} {now : Nat} (h : Inv s) (h' : Inv s') {t : DTask}
+    (ht : t ∈ s.tasks) (ht' : t ∈ s'.tasks) (hit : t.inTable = true) (hf : s.spawnFail = s'.spawnFail) :
+    (tick s now).2.filter (·.uid == t.uid) = (tick s' now).2.filter (·.uid == t.uid) := by
+  rw [tick_eq_iter, tick_eq_iter]
+  exact independent (ko := none) (ko' := none) h h' ht ht' hit hf rfl
+
+/-- a limit-1 task with two overlapping occurrences: the second spawn is a `--no-run` report -/
+example :
+    ((run { me := 0 } [.req 1001 [.sched "j" none 1 0 [10, 20] true], .tick 15, .tick 25]).2.1.map
+      fun p => (p.1, p.2.uid, p.2.nd)) = [(15, "j", false), (25, "j", true)] := by decide
+
+/-- … and after the child has exited the next one runs again -/
+example :
+    ((run { me := 0 } [.req 1001 [.sched "j" none 1 0 [10, 20, 30] true], .tick 15, .tick 25, .exit 0, .tick 35]).2.1.map
+      fun p => (p.1, p.2.nd)) = [(15, false), (25, true), (35, false)] := by decide
+
+/-- the combined iteration: the last child exits while the last callback is pending — the run is not lost -/
+example :
+    ((run { me := 0 } [.req 1001 [.sched "j" none 1 0 [10, 20] true], .tick 15, .tickExit 25 0]).2.1.map
+      fun p => (p.1, p.2.nd)) = [(15, false), (25, false)] := by decide
 
 end C12
